@@ -243,8 +243,15 @@ def expectation(doc, ep, vec):
     while rb and "$ref" in rb and hops < 10:      # the document's own component, through chains of references
         rb = (doc.get("components", {}).get("requestBodies", {}) or {}).get(rb["$ref"].rsplit("/", 1)[1])
         hops += 1
-    if rb and "content" in rb and len(rb["content"]) == 1 and "body" in vec:
-        (ct, _), = rb["content"].items()
+    sel = None
+    if rb and "content" in rb and len(rb["content"]) > 1 and "body" in vec and vec["body"][0] == "model":
+        # several media types: the one whose schema IS the class of the value that was passed (when exactly one is) must be used
+        hits = [c for c, mt in rb["content"].items() if isinstance(mt.get("schema"), dict) and mt["schema"].get("$ref", "").rsplit("/", 1)[-1] == vec["body"][1]]
+        kinds = {c for c in hits if c.split(";")[0].strip() in ("application/json", "application/x-www-form-urlencoded") or c.split(";")[0].strip().endswith("+json")}
+        if len(hits) == 1 and kinds:
+            sel = hits[0]
+    if rb and "content" in rb and (len(rb["content"]) == 1 or sel) and "body" in vec:
+        ct = sel or next(iter(rb["content"]))
         exp["content_type"] = ct
         bv = vec["body"]
         if bv[0] == "model":
@@ -439,9 +446,10 @@ def client_seq(rng, guarded=True):
         h = {rng.choice(PLAIN_KEYS): "v%d" % rng.randint(0, 9) for _ in range(rng.randint(0, 2))}
         if not guarded and rng.random() < 0.5:
             h[rng.choice(CLASH_KEYS)] = "user-supplied"
-        st = {"k": "new", "tok": next(tok), "pre": rng.choice(["Bearer", "Bearer", "Token", ""]), "auth": rng.choice(AUTH_NAMES[:2] if rng.random() < 0.8 else AUTH_NAMES), "headers": h}
+        ck = {rng.choice(["session", "lang", "ab"]): "c%d" % rng.randint(0, 9) for _ in range(rng.randint(0, 2))}
+        st = {"k": "new", "tok": next(tok), "pre": rng.choice(["Bearer", "Bearer", "Token", ""]), "auth": rng.choice(AUTH_NAMES[:2] if rng.random() < 0.8 else AUTH_NAMES), "headers": h, "cookies": ck}
         steps.append(st)
-        shadow.append({"tok": st["tok"], "pre": st["pre"], "auth": st["auth"], "built": set(), "dirty": False})
+        shadow.append({"tok": st["tok"], "pre": st["pre"], "auth": st["auth"], "built": set(), "dirty": False, "ck": dict(ck), "snap": {}})
     new()
     for _ in range(rng.randint(4, 14)):
         i = rng.randrange(len(shadow))
@@ -451,17 +459,22 @@ def client_seq(rng, guarded=True):
             new()
         elif r < 0.25:
             st = {"k": "evolve_token", "i": i, "tok": next(tok)}
-            steps.append(st); shadow.append(dict(c, tok=st["tok"], built=set(), dirty=False))
+            steps.append(st); shadow.append(dict(c, tok=st["tok"], built=set(), dirty=False, ck=dict(c["ck"]), snap={}))
         elif r < 0.32:
             st = {"k": "evolve_auth", "i": i, "pre": rng.choice(["Bearer", "Key", ""]), "auth": rng.choice(AUTH_NAMES if guarded else AUTH_NAMES + ["authorization"])}
-            steps.append(st); shadow.append(dict(c, pre=st["pre"], auth=st["auth"], built=set(), dirty=False))
+            steps.append(st); shadow.append(dict(c, pre=st["pre"], auth=st["auth"], built=set(), dirty=False, ck=dict(c["ck"]), snap={}))
         elif r < 0.45:
-            steps.append({"k": "derive", "i": i, "how": rng.choice(["with_timeout", "with_cookies", "evolve_flag"])}); shadow.append(dict(c, built=set(), dirty=False))
+            how = rng.choice(["with_timeout", "with_cookies", "evolve_flag"])
+            add = {rng.choice(["session", "theme", "ab"]): "w%d" % rng.randint(0, 9)} if how == "with_cookies" else {}
+            steps.append({"k": "derive", "i": i, "how": how, "cookies": add})
+            for v in c["snap"]:
+                c["snap"][v].update(add)            # with_cookies also updates the httpx clients the ORIGINAL client already built
+            shadow.append(dict(c, built=set(), dirty=False, ck=dict(c["ck"], **add), snap={}))
         elif r < 0.55:
             h = {rng.choice(PLAIN_KEYS): "w%d" % rng.randint(0, 9) for _ in range(rng.randint(1, 2))}
             if not guarded and rng.random() < 0.5:
                 h[rng.choice(CLASH_KEYS)] = "user-supplied"
-            steps.append({"k": "with_headers", "i": i, "h": h}); shadow.append(dict(c, built=set(), dirty=False))
+            steps.append({"k": "with_headers", "i": i, "h": h}); shadow.append(dict(c, built=set(), dirty=False, ck=dict(c["ck"]), snap={}))
         elif r < 0.62:
             st = {"k": "set_token", "i": i, "tok": next(tok)}
             steps.append(st)
@@ -469,7 +482,9 @@ def client_seq(rng, guarded=True):
             c["tok"] = st["tok"]
         else:
             v = rng.choice(["sync", "async"])
-            steps.append({"k": "use", "i": i, "variant": v, "own": None if c["dirty"] else ((c["pre"] + " " + c["tok"]) if c["pre"] else c["tok"])})
+            if v not in c["snap"]:
+                c["snap"][v] = dict(c["ck"])
+            steps.append({"k": "use", "i": i, "variant": v, "own": None if c["dirty"] else ((c["pre"] + " " + c["tok"]) if c["pre"] else c["tok"]), "cookies_expected": dict(c["snap"][v])})
             c["built"] = c["built"] | {v}
     return steps
 
@@ -504,7 +519,7 @@ def client_life_cycle(run, tier):
     # fixed sequences first (the shapes a life-cycle regression needs): use, derive with a new token, use the derived one - both variants
     for v1 in ("sync", "async"):
         for v2 in ("sync", "async"):
-            seqs.insert(0, ([{"k": "new", "tok": "A", "pre": "Bearer", "auth": "Authorization", "headers": {}}, {"k": "use", "i": 0, "variant": v1, "own": "Bearer A"},
+            seqs.insert(0, ([{"k": "new", "tok": "A", "pre": "Bearer", "auth": "Authorization", "headers": {}, "cookies": {"session": "abc123"}}, {"k": "use", "i": 0, "variant": v1, "own": "Bearer A", "cookies_expected": {"session": "abc123"}},
                              {"k": "evolve_token", "i": 0, "tok": "B"}, {"k": "use", "i": 1, "variant": v2, "own": "Bearer B"}, {"k": "derive", "i": 1, "how": "with_timeout"},
                              {"k": "set_token", "i": 2, "tok": "C"}, {"k": "use", "i": 2, "variant": v1, "own": "Bearer C"}, {"k": "use", "i": 0, "variant": v2, "own": "Bearer A"},
                              {"k": "with_headers", "i": 0, "h": {"X-Trace": "1"}}, {"k": "use", "i": 3, "variant": v1, "own": "Bearer A"}, {"k": "use", "i": 0, "variant": v1, "own": "Bearer A"}], True))
@@ -528,6 +543,10 @@ def client_life_cycle(run, tier):
         meta.append((steps, outs))
         if guarded:
             for st, o in zip(steps, outs):
+                if st["k"] == "use" and "cookies_expected" in st and o.get("cookies") != st["cookies_expected"]:
+                    run.violation("oracle", {"label": "client-life-cycle", "doc": LIFE_DOC, "steps": steps, "step": st, "sent_cookies": o.get("cookies"),
+                                             "note": f"client #{st['i']} ({st['variant']}) did not send exactly the cookies it was constructed / derived with {st['cookies_expected']!r}"})
+                    break
                 if st["k"] == "use" and st["own"] is not None and o["vals"] != [st["own"]]:
                     run.violation("oracle", {"label": "client-life-cycle", "doc": LIFE_DOC, "steps": steps, "step": st, "sent": o["vals"], "all_headers": o["all"],
                                              "note": f"client #{st['i']} did not send exactly its own credential {st['own']!r} under its auth header"})
